@@ -665,6 +665,28 @@ func registerBuiltinSpecs(e *Engine) {
 		}
 		return Val{smt.App(smt.Bool, "elemOf", Box(x.T), sl.T), types.Typ[types.Bool]}, nil
 	}
+	// field(x, i): the i-th field of a struct value whose Go type the clause does not know
+	e.Specs["field"] = func(e *Engine, env *SpecEnv, args []spec.Expr) (Val, error) {
+		if len(args) != 2 {
+			return Val{}, fmt.Errorf("spec: field(x, i)")
+		}
+		x, err := e.evalSpec(env, args[0])
+		if err != nil {
+			return Val{}, err
+		}
+		il, ok := args[1].(*spec.IntLit)
+		if !ok {
+			return Val{}, fmt.Errorf("spec: field(x, i): i must be a literal")
+		}
+		idx := int(il.Val)
+		if x.Ty != nil {
+			if st, ok := x.Ty.Underlying().(*types.Struct); ok && idx < st.NumFields() {
+				ft := st.Field(idx).Type()
+				return Val{Unbox(smt.App(smt.V, "f_get", x.T, smt.IntLit(e.FID(x.Ty, idx))), SortOf(ft)), ft}, nil
+			}
+		}
+		return Val{smt.App(smt.V, "f_get", x.T, smt.IntLit(idx)), nil}, nil
+	}
 	// distinct(s): the elements of slice s are pairwise different values
 	e.Specs["distinct"] = func(e *Engine, env *SpecEnv, args []spec.Expr) (Val, error) {
 		if len(args) != 1 {
